@@ -1,8 +1,9 @@
 SPECIFICATION GSpec
 CONSTANTS
-  Ctls = {"c1", "c2", "c3"}
+  Layouts = {10, 20, 30, 11, 21, 22}
   Depth = 7
-  Upd = {"c1", "c2", "c3"}
+  Depth2 = 6
+  Upd = {"a1", "a2", "a3", "b1", "b2"}
   UpdAny = FALSE
 CONSTRAINT Bound
 INVARIANT Emit1
